@@ -1381,6 +1381,78 @@ def _may_write(st, mentioned):
     return False
 
 
+def inline_constant_set_locals(func):
+    """`names = (Enum.A, Enum.B)` (one definition; a tuple / frozenset display of dotted constants - nothing local, nothing that can
+    change) whose later uses in the same block are membership tests `x in names` / `x not in names`: the display is put where
+    the code base writes it, in the test.  Returns the number of locals substituted."""
+    count = 0
+    stores = {}
+    local = set()
+    for x in walk_no_nested(func):
+        if isinstance(x, ast.Name) and isinstance(x.ctx, (ast.Store, ast.Del)):
+            stores[x.id] = stores.get(x.id, 0) + 1
+            local.add(x.id)
+    params = {a.arg for a in ast.walk(func.args) if isinstance(a, ast.arg)}
+
+    def constant(e):
+        if isinstance(e, ast.Constant):
+            return True
+        if isinstance(e, ast.Attribute):
+            chain = e
+            while isinstance(chain, ast.Attribute):
+                chain = chain.value
+            # Enum members and class constants are spelt Class.Member: a capitalised root that is not a local or a parameter
+            return isinstance(chain, ast.Name) and chain.id not in local and chain.id not in params and chain.id[:1].isupper()
+        return False
+
+    def display(v):
+        if isinstance(v, ast.Tuple):
+            return bool(v.elts) and all(constant(x) for x in v.elts)
+        if isinstance(v, ast.Call) and isinstance(v.func, ast.Name) and v.func.id in ('frozenset', 'tuple') and len(v.args) == 1 \
+                and not v.keywords and isinstance(v.args[0], (ast.Tuple, ast.List, ast.Set)):
+            return bool(v.args[0].elts) and all(constant(x) for x in v.args[0].elts)
+        return False
+
+    def blocks(node):
+        for field in ('body', 'orelse', 'finalbody'):
+            b = getattr(node, field, None)
+            if isinstance(b, list) and b and isinstance(b[0], ast.stmt):
+                yield b
+        if isinstance(node, ast.Try):
+            for h in node.handlers:
+                yield h.body
+
+    def visit(node):
+        nonlocal count
+        for b in blocks(node):
+            i = 0
+            while i < len(b):
+                st = b[i]
+                if (isinstance(st, ast.Assign) and len(st.targets) == 1 and isinstance(st.targets[0], ast.Name)
+                        and stores.get(st.targets[0].id) == 1 and st.targets[0].id not in params and display(st.value)):
+                    name = st.targets[0].id
+                    total = [x for x in walk_no_nested(func) if isinstance(x, ast.Name) and x.id == name and isinstance(x.ctx, ast.Load)]
+                    sites = []
+                    for later in b[i + 1:]:
+                        for x in ast.walk(later):
+                            if isinstance(x, ast.Compare) and len(x.ops) == 1 and isinstance(x.ops[0], (ast.In, ast.NotIn)) \
+                                    and isinstance(x.comparators[0], ast.Name) and x.comparators[0].id == name:
+                                sites.append(x)
+                    if total and len(sites) == len(total):
+                        val = st.value if isinstance(st.value, ast.Tuple) else ast.Tuple(elts=list(st.value.args[0].elts), ctx=ast.Load())
+                        for x in sites:
+                            x.comparators[0] = ast.copy_location(copy.deepcopy(val), x.comparators[0])
+                            ast.fix_missing_locations(x)
+                        del b[i]
+                        count += 1
+                        continue
+                if not isinstance(st, (ast.FunctionDef, ast.AsyncFunctionDef, ast.ClassDef)):
+                    visit(st)
+                i += 1
+    visit(func)
+    return count
+
+
 def propagate_condition_locals(func):
     """`flag = <pure test>` followed by `if flag:` / `if not flag: return` ... : the test is substituted into the conditions
     (and the local disappears) when the flag has one definition, is only used in tests of the following sibling
@@ -3124,6 +3196,9 @@ class Inliner:
                     k = eliminate_container_aliases(fi.node, fi.self_name, rebound_elsewhere)
                     if k:
                         self.report.setdefault('container_aliases', {})[q] = k
+                k = inline_constant_set_locals(fi.node)
+                if k:
+                    self.report.setdefault('constant_set_locals', {})[q] = k
                 k = counting_whiles_to_for(fi.node)
                 if k:
                     self.report['counting_loops'][q] = k
